@@ -1,6 +1,8 @@
 use crate::report::Ctx;
 pub mod c01;
 pub mod c02;
+pub mod c05;
+pub mod c06;
 pub mod c07;
 pub mod c08;
 pub mod c09;
@@ -9,11 +11,15 @@ pub mod c11;
 pub mod c12;
 pub mod c13;
 pub mod c17;
+pub mod c18;
+pub mod c19;
 
 pub fn lookup(name: &str) -> Option<fn(&mut Ctx)> {
     match name {
         "C01" => Some(c01::run),
         "C02" => Some(c02::run),
+        "C05" => Some(c05::run),
+        "C06" => Some(c06::run),
         "C07" => Some(c07::run),
         "C08" => Some(c08::run),
         "C09" => Some(c09::run),
@@ -22,6 +28,8 @@ pub fn lookup(name: &str) -> Option<fn(&mut Ctx)> {
         "C12" => Some(c12::run),
         "C13" => Some(c13::run),
         "C17" => Some(c17::run),
+        "C18" => Some(c18::run),
+        "C19" => Some(c19::run),
         _ => None,
     }
 }
